@@ -54,6 +54,7 @@ type host struct {
 	front   *httptest.Server
 	apiAddr string
 	healthy atomic.Bool
+	stage   atomic.Int64
 	ridMu   sync.Mutex
 	ridHist []string
 	identsGlobal map[string]string
@@ -212,13 +213,17 @@ func (s *fakeSup) Exec(ctx context.Context, req *supvmodel.ExecRequest) error {
 	}
 	envc := copyEnv(req.Env)
 	fail := false
+	sel := idx
+	if s.h.sc.SelectBy == "stage" {
+		sel = int(s.h.stage.Load())
+	}
 	for _, i := range s.h.sc.Config.LaunchError[role] {
-		if i == idx {
+		if i == sel {
 			fail = true
 		}
 	}
 	s.h.record(Event{Actor: "sup", Kind: "sup.exec", Proc: req.Name, Name: req.Name, Path: req.Path, Args: req.Args, Env: envc,
-		Extra: map[string]any{"cwd": cwd, "domain": req.Domain, "role": role, "launch": idx, "fail": fail}})
+		Extra: map[string]any{"cwd": cwd, "domain": req.Domain, "role": role, "launch": idx, "sel": sel, "fail": fail}})
 	if fail {
 		return &os.PathError{Op: "fork/exec", Path: req.Path, Err: syscall.EACCES}
 	}
@@ -226,8 +231,8 @@ func (s *fakeSup) Exec(ctx context.Context, req *supvmodel.ExecRequest) error {
 	if hs, ok := s.h.sc.Healthy[role]; ok && s.h.healthy.Load() {
 		script = hs
 	} else if scripts := s.h.sc.Actors[role]; len(scripts) > 0 {
-		if idx < len(scripts) {
-			script = scripts[idx]
+		if sel < len(scripts) {
+			script = scripts[sel]
 		} else {
 			script = scripts[len(scripts)-1]
 		}
@@ -1131,6 +1136,10 @@ func (h *host) driverOp(a *actor, st *Step, idx int) bool {
 		if st.Flag == "healthy" {
 			h.healthy.Store(true)
 			h.record(Event{Actor: "driver", Kind: "driver", Call: "flag.healthy", Step: idx})
+		}
+		if st.Flag == "stage" {
+			h.stage.Store(int64(st.Count))
+			h.record(Event{Actor: "driver", Kind: "driver", Call: "flag.stage", Step: idx, Extra: map[string]any{"stage": st.Count}})
 		}
 	case "hook.wait":
 		max := time.Duration(st.Ms) * time.Millisecond
